@@ -273,6 +273,41 @@ func rtRelockScenario(lease time.Duration) rtResult {
 	return res
 }
 
+// rtShutdownHeldScenario: the holder's provider is shut down while the lock is held (Shutdown stops new
+// acquisitions; it does not release what is held): for three lease periods the record stays and a Locker of
+// another provider cannot acquire; after Unlock it can.
+func rtShutdownHeldScenario(lease time.Duration) rtResult {
+	res := rtResult{name: fmt.Sprintf("shutdown-held lease=%v", lease)}
+	st := &rtStore{Storage: inmem.New()}
+	pa := dist.NewKvsLockProvider(st, "/rt/")
+	pt := dist.NewKvsLockProvider(st, "/rt/")
+	dist.VerifSetLease(pa, lease)
+	dist.VerifSetLease(pt, lease)
+	defer pt.Shutdown()
+	a := pa.NewLocker("l")
+	third := pt.NewLocker("l").(tryLocker)
+	a.Lock()
+	t0 := time.Now()
+	pa.Shutdown()
+	bg := context.Background()
+	end := t0.Add(3 * lease)
+	for time.Now().Before(end) {
+		if third.TryLock(bg) {
+			res.bad = fmt.Sprintf("another provider's Locker acquired the lock %v after the holder did, while the holder (alive, storage answering, its provider shut down meanwhile) still held it", time.Since(t0).Round(time.Millisecond))
+			third.Unlock()
+			break
+		}
+		if it, err := st.ListKeys(bg, "*"); err == nil && !it.HasNext() {
+			res.bad = fmt.Sprintf("the record of the held lock is gone %v after it was acquired (lease %v): renewal stopped when the holder's provider was shut down", time.Since(t0).Round(time.Millisecond), lease)
+			break
+		}
+		time.Sleep(lease / 40)
+	}
+	res.info = fmt.Sprintf("renewals=%d ok=%d", atomic.LoadInt32(&st.casCalls), atomic.LoadInt32(&st.casOK))
+	a.Unlock()
+	return res
+}
+
 // rtHandoverScenario: the contender waits behind the holder for `waitLeases` lease periods (the holder is
 // alive and renewing, or dead from the start), acquires, and then HOLDS for two lease periods: its record must
 // be there all the time and nobody else may get the lock — the lease of a lock obtained after a long wait is as
@@ -405,6 +440,23 @@ func runLockRT(ctx *Ctx) {
 			ctx.R.Stats.Notes = append(ctx.R.Stats.Notes, "timing flake discarded: "+ra.name+": "+ra.bad)
 			ra.bad = ""
 		}
+	}
+	// Shutdown of the holder's provider while the lock is held
+	rs := rtShutdownHeldScenario(lease)
+	if rs.bad != "" {
+		if r2 := rtShutdownHeldScenario(2 * lease); r2.bad == "" {
+			ctx.R.Stats.Notes = append(ctx.R.Stats.Notes, "timing flake discarded: "+rs.name+": "+rs.bad)
+			rs.bad = ""
+		} else {
+			rs.bad = r2.bad
+		}
+	}
+	ctx.R.Case("realtime")
+	ctx.R.Nontrivial("shutdown-held")
+	ctx.R.Op("scenario shutdown-held-1", "ok")
+	ctx.R.Comment(rs.name + ": " + rs.info)
+	if rs.bad != "" {
+		ctx.R.Quiet("mon C05-lease-kept-while-held", rs.name+": "+rs.bad)
 	}
 	// Unlock + Lock on the same Locker while the answer of an applied renewal is on the way
 	rr := rtRelockScenario(lease)
